@@ -602,21 +602,253 @@ theorem length_update (t : String) (v : GVal) : ∀ ρ : GEnv, (updateG ρ t v).
 theorem pop_append (D U ρ : GEnv) (h : U.length = ρ.length) : (D ++ U).drop ((D ++ U).length - ρ.length) = U := by
   rw [← h]; simp
 
-/-! ### the Go-side name invariant -/
+/-! ### the Go-side name invariant (block-scoped) -/
 
-/-- the names `ds` are about to be declared in `gρ`: they are pairwise distinct and new, and no name
-    in sight is one of `Bad` (`_` and the Go names of the callees) -/
-structure GInvN (Bad : List String) (ds : List String) (gρ : GEnv) : Prop where
-  nodup : ds.Nodup
-  disj : ∀ y, y ∈ ds → ¬ y ∈ keys gρ
-  goodD : ∀ y, y ∈ ds → ¬ y ∈ Bad
+/-- scope after a statement list (top-level declarations added) -/
+def scopeAfter : List GStmt → List String → List String
+  | [], sc => sc
+  | s :: rest, sc => scopeAfter rest (Goml.Dce.declScope s sc)
+
+/-- the names a statement list adds to the scope of what follows it: its top-level `var`s -/
+def topDecls : List GStmt → List String
+  | [] => []
+  | .varDecl x _ _ :: rest => x :: topDecls rest
+  | _ :: rest => topDecls rest
+
+theorem scopeAfter_append (a b : List GStmt) (sc : List String) : scopeAfter (a ++ b) sc = scopeAfter b (scopeAfter a sc) := by
+  induction a generalizing sc with
+  | nil => rfl
+  | cons s a ih => simp [scopeAfter, ih]
+
+theorem scopeAfter_mem : ∀ (a : List GStmt) (sc : List String) (y : String), y ∈ scopeAfter a sc ↔ y ∈ sc ∨ y ∈ topDecls a
+  | [], sc, y => by simp [scopeAfter, topDecls]
+  | s :: a, sc, y => by
+    rw [scopeAfter, scopeAfter_mem a]
+    cases s <;> simp only [Goml.Dce.declScope, topDecls, List.mem_cons]
+    constructor
+    · rintro ((h | h) | h)
+      · exact Or.inr (Or.inl h)
+      · exact Or.inl h
+      · exact Or.inr (Or.inr h)
+    · rintro (h | h | h)
+      · exact Or.inl (Or.inr h)
+      · exact Or.inl (Or.inl h)
+      · exact Or.inr h
+
+theorem topDecls_append (a b : List GStmt) : topDecls (a ++ b) = topDecls a ++ topDecls b := by
+  induction a with
+  | nil => rfl
+  | cons s a ih => cases s <;> simp [topDecls, ih]
+
+mutual
+/-- fewer names in sight, fewer conflicts -/
+theorem sokB_anti {ok : String → Bool} : ∀ (S : List GStmt) {K K' : List String}, (∀ y, y ∈ K' → y ∈ K) →
+    sokB ok K S = true → sokB ok K' S = true
+  | [], _, _, _, _ => by simp [sokB]
+  | s :: rest, K, K', hsub, h => by
+    simp only [sokB, Bool.and_eq_true] at h ⊢
+    refine ⟨sokStmtB_anti s hsub h.1, sokB_anti rest (fun y hy => ?_) h.2⟩
+    cases s <;> simp only [Goml.Dce.declScope] at hy ⊢ <;> first
+      | exact hsub y hy
+      | (rcases List.mem_cons.mp hy with rfl | hy
+         · exact List.mem_cons_self
+         · exact List.mem_cons_of_mem _ (hsub y hy))
+theorem sokStmtB_anti {ok : String → Bool} : ∀ (s : GStmt) {K K' : List String}, (∀ y, y ∈ K' → y ∈ K) →
+    sokStmtB ok K s = true → sokStmtB ok K' s = true
+  | .varDecl x _ _, K, K', hsub, h => by
+    simp only [sokStmtB, Bool.and_eq_true, Bool.not_eq_true', List.contains_eq_mem, decide_eq_false_iff_not] at h ⊢
+    exact ⟨fun hx => h.1 (hsub x hx), h.2⟩
+  | .ite _ t none, K, K', hsub, h => by
+    simp only [sokStmtB, Bool.and_true] at h ⊢; exact sokB_anti t hsub h
+  | .ite _ t (some e), K, K', hsub, h => by
+    simp only [sokStmtB, Bool.and_eq_true] at h ⊢; exact ⟨sokB_anti t hsub h.1, sokB_anti e hsub h.2⟩
+  | .loop b, K, K', hsub, h => by simp only [sokStmtB] at h ⊢; exact sokB_anti b hsub h
+  | .switch _ cs none, K, K', hsub, h => by
+    simp only [sokStmtB, Bool.and_true] at h ⊢; exact sokCasesB_anti cs hsub h
+  | .switch _ cs (some d), K, K', hsub, h => by
+    simp only [sokStmtB, Bool.and_eq_true] at h ⊢; exact ⟨sokCasesB_anti cs hsub h.1, sokB_anti d hsub h.2⟩
+  | .tswitch _ _ cs none, K, K', hsub, h => by
+    simp only [sokStmtB, Bool.and_true] at h ⊢; exact sokTCasesB_anti cs hsub h
+  | .tswitch _ _ cs (some d), K, K', hsub, h => by
+    simp only [sokStmtB, Bool.and_eq_true] at h ⊢; exact ⟨sokTCasesB_anti cs hsub h.1, sokB_anti d hsub h.2⟩
+  | .expr _, _, _, _, _ | .go _, _, _, _, _ | .assign _ _, _, _, _, _ | .fieldAssign _ _, _, _, _, _ | .ptrAssign _ _, _, _, _, _
+  | .indexAssign _ _ _, _, _, _, _ | .ret _, _, _, _, _ | .brk, _, _, _, _ => by simp [sokStmtB]
+theorem sokCasesB_anti {ok : String → Bool} : ∀ (cs : List GCase) {K K' : List String}, (∀ y, y ∈ K' → y ∈ K) →
+    sokCasesB ok K cs = true → sokCasesB ok K' cs = true
+  | [], _, _, _, _ => by simp [sokCasesB]
+  | .mk _ b :: rest, K, K', hsub, h => by
+    simp only [sokCasesB, Bool.and_eq_true] at h ⊢; exact ⟨sokB_anti b hsub h.1, sokCasesB_anti rest hsub h.2⟩
+theorem sokTCasesB_anti {ok : String → Bool} : ∀ (cs : List GTCase) {K K' : List String}, (∀ y, y ∈ K' → y ∈ K) →
+    sokTCasesB ok K cs = true → sokTCasesB ok K' cs = true
+  | [], _, _, _, _ => by simp [sokTCasesB]
+  | .mk _ b :: rest, K, K', hsub, h => by
+    simp only [sokTCasesB, Bool.and_eq_true] at h ⊢; exact ⟨sokB_anti b hsub h.1, sokTCasesB_anti rest hsub h.2⟩
+end
+
+theorem allDecls_append (a b : List GStmt) : Goml.Dce.allDecls (a ++ b) = Goml.Dce.allDecls a ++ Goml.Dce.allDecls b := by
+  induction a with
+  | nil => simp [Goml.Dce.allDecls]
+  | cons s a ih => simp [Goml.Dce.allDecls, ih, List.append_assoc]
+
+mutual
+/-- the declaration test may be replaced by one that every declared name passes -/
+theorem sokB_weaken {ok ok' : String → Bool} : ∀ (S : List GStmt) {K : List String},
+    (∀ y, y ∈ Goml.Dce.allDecls S → ok' y = true) → sokB ok K S = true → sokB ok' K S = true
+  | [], _, _, _ => by simp [sokB]
+  | s :: rest, K, hok, h => by
+    simp only [sokB, Bool.and_eq_true] at h ⊢
+    exact ⟨sokStmtB_weaken s (fun y hy => hok y (by simp only [Goml.Dce.allDecls, List.mem_append]; exact Or.inl hy)) h.1,
+      sokB_weaken rest (fun y hy => hok y (by simp only [Goml.Dce.allDecls, List.mem_append]; exact Or.inr hy)) h.2⟩
+theorem sokStmtB_weaken {ok ok' : String → Bool} : ∀ (s : GStmt) {K : List String},
+    (∀ y, y ∈ Goml.Dce.declsOf s → ok' y = true) → sokStmtB ok K s = true → sokStmtB ok' K s = true
+  | .varDecl x _ _, K, hok, h => by
+    simp only [sokStmtB, Bool.and_eq_true] at h ⊢
+    exact ⟨h.1, hok x (by simp [Goml.Dce.declsOf])⟩
+  | .ite _ t none, K, hok, h => by
+    simp only [sokStmtB, Bool.and_true] at h ⊢
+    exact sokB_weaken t (fun y hy => hok y (by simp [Goml.Dce.declsOf, hy])) h
+  | .ite _ t (some e), K, hok, h => by
+    simp only [sokStmtB, Bool.and_eq_true] at h ⊢
+    exact ⟨sokB_weaken t (fun y hy => hok y (by simp [Goml.Dce.declsOf, hy])) h.1,
+      sokB_weaken e (fun y hy => hok y (by simp [Goml.Dce.declsOf, hy])) h.2⟩
+  | .loop b, K, hok, h => by
+    simp only [sokStmtB] at h ⊢
+    exact sokB_weaken b (fun y hy => hok y (by simp [Goml.Dce.declsOf, hy])) h
+  | .switch _ cs none, K, hok, h => by
+    simp only [sokStmtB, Bool.and_true] at h ⊢
+    exact sokCasesB_weaken cs (fun y hy => hok y (by simp [Goml.Dce.declsOf, hy])) h
+  | .switch _ cs (some d), K, hok, h => by
+    simp only [sokStmtB, Bool.and_eq_true] at h ⊢
+    exact ⟨sokCasesB_weaken cs (fun y hy => hok y (by simp [Goml.Dce.declsOf, hy])) h.1,
+      sokB_weaken d (fun y hy => hok y (by simp [Goml.Dce.declsOf, hy])) h.2⟩
+  | .tswitch _ _ cs none, K, hok, h => by
+    simp only [sokStmtB, Bool.and_true] at h ⊢
+    exact sokTCasesB_weaken cs (fun y hy => hok y (by simp [Goml.Dce.declsOf, hy])) h
+  | .tswitch _ _ cs (some d), K, hok, h => by
+    simp only [sokStmtB, Bool.and_eq_true] at h ⊢
+    exact ⟨sokTCasesB_weaken cs (fun y hy => hok y (by simp [Goml.Dce.declsOf, hy])) h.1,
+      sokB_weaken d (fun y hy => hok y (by simp [Goml.Dce.declsOf, hy])) h.2⟩
+  | .expr _, _, _, _ | .go _, _, _, _ | .assign _ _, _, _, _ | .fieldAssign _ _, _, _, _ | .ptrAssign _ _, _, _, _
+  | .indexAssign _ _ _, _, _, _ | .ret _, _, _, _ | .brk, _, _, _ => by simp [sokStmtB]
+theorem sokCasesB_weaken {ok ok' : String → Bool} : ∀ (cs : List GCase) {K : List String},
+    (∀ y, y ∈ Goml.Dce.declsCases cs → ok' y = true) → sokCasesB ok K cs = true → sokCasesB ok' K cs = true
+  | [], _, _, _ => by simp [sokCasesB]
+  | .mk _ b :: rest, K, hok, h => by
+    simp only [sokCasesB, Bool.and_eq_true] at h ⊢
+    exact ⟨sokB_weaken b (fun y hy => hok y (by simp [Goml.Dce.declsCases, hy])) h.1,
+      sokCasesB_weaken rest (fun y hy => hok y (by simp [Goml.Dce.declsCases, hy])) h.2⟩
+theorem sokTCasesB_weaken {ok ok' : String → Bool} : ∀ (cs : List GTCase) {K : List String},
+    (∀ y, y ∈ Goml.Dce.declsTCases cs → ok' y = true) → sokTCasesB ok K cs = true → sokTCasesB ok' K cs = true
+  | [], _, _, _ => by simp [sokTCasesB]
+  | .mk _ b :: rest, K, hok, h => by
+    simp only [sokTCasesB, Bool.and_eq_true] at h ⊢
+    exact ⟨sokB_weaken b (fun y hy => hok y (by simp [Goml.Dce.declsTCases, hy])) h.1,
+      sokTCasesB_weaken rest (fun y hy => hok y (by simp [Goml.Dce.declsTCases, hy])) h.2⟩
+end
+
+theorem sokB_append {ok : String → Bool} : ∀ (a b : List GStmt) (K : List String),
+    sokB ok K (a ++ b) = (sokB ok K a && sokB ok (scopeAfter a K) b)
+  | [], b, K => by simp [sokB, scopeAfter]
+  | s :: a, b, K => by simp only [List.cons_append, sokB, scopeAfter, sokB_append a b, Bool.and_assoc]
+
+/-- the top-level declarations pass `ok` and are new -/
+theorem sokB_top {ok : String → Bool} : ∀ (S : List GStmt) (K : List String), sokB ok K S = true →
+    ∀ y, y ∈ topDecls S → ok y = true ∧ ¬ y ∈ K
+  | [], _, _, y, hy => by simp [topDecls] at hy
+  | s :: rest, K, h, y, hy => by
+    simp only [sokB, Bool.and_eq_true] at h
+    cases s with
+    | varDecl x T v =>
+      simp only [sokStmtB, Bool.and_eq_true, Bool.not_eq_true', List.contains_eq_mem, decide_eq_false_iff_not] at h
+      simp only [topDecls, List.mem_cons] at hy
+      rcases hy with rfl | hy
+      · exact ⟨h.1.2, h.1.1⟩
+      · have := sokB_top rest _ h.2 y hy
+        simp only [Goml.Dce.declScope, List.mem_cons, not_or] at this
+        exact ⟨this.1, this.2.2⟩
+    | _ =>
+      simp only [topDecls] at hy
+      have := sokB_top rest _ h.2 y hy
+      simpa [Goml.Dce.declScope] using this
+
+/-- the declaration test of the simulation: not one of `Bad` (`_`, the Go names of the callees and of the functions that
+    may be values) -/
+def notBad (Bad : List String) (x : String) : Bool := !Bad.contains x
+
+/-- `S` is about to run in `gρ`: every `var` of `S` is new in its scope — the variables of `gρ` and what `S` declared
+    before it in an enclosing block — and neither it nor a variable in sight is one of `Bad` -/
+structure GInv (Bad : List String) (S : List GStmt) (gρ : GEnv) : Prop where
+  sok : sokB (notBad Bad) (keys gρ) S = true
   goodK : ∀ y, y ∈ keys gρ → ¬ y ∈ Bad
 
-/-- `S` is about to run in `gρ` (`GInvN` of what `S` declares) -/
-abbrev GInv (Bad : List String) (S : List GStmt) (gρ : GEnv) : Prop := GInvN Bad (ndDecls S) gρ
+theorem GInv.left {Bad a b gρ} (h : GInv Bad (a ++ b) gρ) : GInv Bad a gρ := by
+  have := h.sok; rw [sokB_append, Bool.and_eq_true] at this
+  exact ⟨this.1, h.goodK⟩
 
-theorem GInvN.sub {Bad ds ds' gρ} (h : GInvN Bad ds gρ) (hs : ds'.Sublist ds) : GInvN Bad ds' gρ :=
-  ⟨hs.nodup h.nodup, fun y hy => h.disj y (hs.subset hy), fun y hy => h.goodD y (hs.subset hy), h.goodK⟩
+/-- after the first part ran: it pushed `D` (top-level names it declares) and kept the keys of the rest -/
+theorem GInv.right {Bad a b gρ} (h : GInv Bad (a ++ b) gρ) {D U : GEnv} (hU : keys U = keys gρ)
+    (hD : ∀ y, y ∈ keys D → y ∈ topDecls a) : GInv Bad b (D ++ U) := by
+  have hs := h.sok; rw [sokB_append, Bool.and_eq_true] at hs
+  refine ⟨sokB_anti b (fun y hy => ?_) hs.2, fun y hy => ?_⟩
+  · rw [keys_append, List.mem_append, hU] at hy
+    rw [scopeAfter_mem]
+    exact hy.elim (fun h => Or.inr (hD y h)) Or.inl
+  · rw [keys_append, List.mem_append, hU] at hy
+    rcases hy with hk | hk
+    · have := (sokB_top a _ hs.1 y (hD y hk)).1
+      simpa [notBad] using this
+    · exact h.goodK y hk
+
+theorem GInv.keys_eq {Bad S gρ gρ'} (h : GInv Bad S gρ) (hk : keys gρ' = keys gρ) : GInv Bad S gρ' :=
+  ⟨by rw [hk]; exact h.sok, fun y hy => h.goodK y (by rw [← hk]; exact hy)⟩
+
+/-- a `var x` at the head: `x` is new and good, and the rest runs with `x` in sight -/
+theorem GInv.varDecl {Bad x T v rest gρ} (h : GInv Bad (.varDecl x T v :: rest) gρ) :
+    ¬ x ∈ keys gρ ∧ ¬ x ∈ Bad ∧ sokB (notBad Bad) (x :: keys gρ) rest = true := by
+  have := h.sok
+  simp only [sokB, sokStmtB, Bool.and_eq_true, Bool.not_eq_true', List.contains_eq_mem, decide_eq_false_iff_not, notBad,
+    Goml.Dce.declScope] at this
+  exact ⟨this.1.1, this.1.2, this.2⟩
+
+/-- the rest of a block after a `var x` bound to a value -/
+theorem GInv.after_varDecl {Bad x T v rest gρ} (h : GInv Bad (.varDecl x T v :: rest) gρ) (g : GVal) :
+    GInv Bad rest ((x, g) :: gρ) := by
+  obtain ⟨h1, h2, h3⟩ := h.varDecl
+  refine ⟨by simpa [Goml.Dce.keys_cons] using h3, fun y hy => ?_⟩
+  simp only [Goml.Dce.keys_cons, List.mem_cons] at hy
+  rcases hy with rfl | hy
+  · exact h2
+  · exact h.goodK y hy
+
+/-- a statement that declares nothing at top level -/
+theorem GInv.skip {Bad s rest gρ} (h : GInv Bad (s :: rest) gρ) (hs : Goml.Dce.declScope s (keys gρ) = keys gρ) :
+    GInv Bad rest gρ := by
+  have := h.sok; simp only [sokB, Bool.and_eq_true, hs] at this
+  exact ⟨this.2, h.goodK⟩
+
+theorem GInv.ite {Bad c t e rest gρ} (h : GInv Bad (.ite c t (some e) :: rest) gρ) : GInv Bad t gρ ∧ GInv Bad e gρ := by
+  have := h.sok; simp only [sokB, sokStmtB, Bool.and_eq_true] at this
+  exact ⟨⟨this.1.1, h.goodK⟩, ⟨this.1.2, h.goodK⟩⟩
+
+theorem GInv.ite_none {Bad c t rest gρ} (h : GInv Bad (.ite c t none :: rest) gρ) : GInv Bad t gρ := by
+  have := h.sok; simp only [sokB, sokStmtB, Bool.and_eq_true, Bool.and_true] at this
+  exact ⟨this.1, h.goodK⟩
+
+theorem GInv.loop {Bad b rest gρ} (h : GInv Bad (.loop b :: rest) gρ) : GInv Bad b gρ := by
+  have := h.sok; simp only [sokB, sokStmtB, Bool.and_eq_true] at this
+  exact ⟨this.1, h.goodK⟩
+
+/-- re-binding a name that is already a key (a type switch binding its own scrutinee) keeps the invariant -/
+theorem GInv.rebind {Bad S gρ} (h : GInv Bad S gρ) {x : String} (hx : x ∈ keys gρ) (v : GVal) : GInv Bad S ((x, v) :: gρ) := by
+  refine ⟨sokB_anti S (fun y hy => ?_) h.sok, fun y hk => ?_⟩
+  · simp only [Goml.Dce.keys_cons, List.mem_cons] at hy
+    rcases hy with rfl | hy
+    · exact hx
+    · exact hy
+  · simp only [Goml.Dce.keys_cons, List.mem_cons] at hk
+    rcases hk with rfl | hk
+    · exact h.goodK _ hx
+    · exact h.goodK y hk
 
 theorem ndDecls_append (a b : List GStmt) : ndDecls (a ++ b) = ndDecls a ++ ndDecls b := by
   induction a with
@@ -625,32 +857,6 @@ theorem ndDecls_append (a b : List GStmt) : ndDecls (a ++ b) = ndDecls a ++ ndDe
 
 theorem ndDecls_cons (s : GStmt) (a : List GStmt) : ndDecls (s :: a) = ndDeclsOf s ++ ndDecls a := by
   simp [ndDecls]
-
-theorem GInv.left {Bad a b gρ} (h : GInv Bad (a ++ b) gρ) : GInv Bad a gρ := by
-  have := h.nodup; rw [ndDecls_append] at this
-  exact ⟨(List.nodup_append.mp this).1, fun y hy => h.disj y (by rw [ndDecls_append]; exact List.mem_append_left _ hy),
-    fun y hy => h.goodD y (by rw [ndDecls_append]; exact List.mem_append_left _ hy), h.goodK⟩
-
-/-- after the first part ran: it pushed `D` (names it declares) and kept the keys of the rest -/
-theorem GInv.right {Bad a b gρ} (h : GInv Bad (a ++ b) gρ) {D U : GEnv} (hU : keys U = keys gρ)
-    (hD : ∀ y, y ∈ keys D → y ∈ ndDecls a) : GInv Bad b (D ++ U) := by
-  have hn := h.nodup; rw [ndDecls_append] at hn
-  obtain ⟨_, hnb, hdisj⟩ := List.nodup_append.mp hn
-  refine ⟨hnb, fun y hy => ?_, fun y hy => h.goodD y (by rw [ndDecls_append]; exact List.mem_append_right _ hy), fun y hy => ?_⟩
-  · rw [keys_append, List.mem_append, hU]
-    rintro (hk | hk)
-    · exact hdisj y (hD y hk) y hy rfl
-    · exact h.disj y (by rw [ndDecls_append]; exact List.mem_append_right _ hy) hk
-  · rw [keys_append, List.mem_append, hU] at hy
-    rcases hy with hk | hk
-    · exact h.goodD y (by rw [ndDecls_append]; exact List.mem_append_left _ (hD y hk))
-    · exact h.goodK y hk
-
-theorem GInv.keys_eq {Bad S gρ gρ'} (h : GInv Bad S gρ) (hk : keys gρ' = keys gρ) : GInv Bad S gρ' :=
-  ⟨h.nodup, fun y hy => by rw [hk]; exact h.disj y hy, h.goodD, fun y hy => h.goodK y (by rw [← hk]; exact hy)⟩
-
-theorem GInv.of_decls {Bad S S' gρ} (h : GInv Bad S gρ) (hs : (ndDecls S').Sublist (ndDecls S)) : GInv Bad S' gρ :=
-  ⟨hs.nodup h.nodup, fun y hy => h.disj y (hs.subset hy), fun y hy => h.goodD y (hs.subset hy), h.goodK⟩
 
 theorem vn_def (x : String) : vn x = gid (rn x) := by unfold vn; rfl
 
@@ -711,18 +917,6 @@ theorem ndDecls_switch (e : GExpr) (cs : List GCase) (d : Option (List GStmt)) :
 theorem ndDecls_tswitch (b : Option String) (e : GExpr) (cs : List GTCase) (d : Option (List GStmt)) :
     ndDecls [GStmt.tswitch b e cs d] = ndDeclsTCases cs ++ (match d with | some b => ndDecls b | none => []) := by
   cases d <;> simp [ndDecls, ndDeclsOf]
-
-/-- re-binding a name that is already a key (a type switch binding its own scrutinee) keeps the invariant -/
-theorem GInvN.rebind {Bad S gρ} (h : GInvN Bad S gρ) {x : String} (hx : x ∈ keys gρ) (v : GVal) : GInvN Bad S ((x, v) :: gρ) := by
-  refine ⟨h.nodup, fun y hy hk => ?_, h.goodD, fun y hk => ?_⟩
-  · simp only [Goml.Dce.keys_cons, List.mem_cons] at hk
-    rcases hk with rfl | hk
-    · exact h.disj _ hy hx
-    · exact h.disj y hy hk
-  · simp only [Goml.Dce.keys_cons, List.mem_cons] at hk
-    rcases hk with rfl | hk
-    · exact h.goodK _ hx
-    · exact h.goodK y hk
 
 /-- shadowing a variable with its own value changes no lookup -/
 theorem lookup_rebind {gρ : GEnv} {x : String} {v : GVal} (h : lookupG gρ x = some v) (y : String) :
